@@ -600,6 +600,10 @@ def check(model: Model, report: Report) -> None:
     check_typing_table(model, report, "R05.1", "R05.2")
     check_positions(model, report, "R05.3")
     check_singular(model, report, "R05.5")
+    report.rule("R05.L3", "every index / slice lexeme the RFC allows is accepted at each of the four consumption sites (whatever the configured bounds make of its value afterwards): C03's rule L3, refuses-too-much direction")
+    from . import _lexrules
+
+    _lexrules.lexical_layer(model, report, "b-only", "R05", only=("L3",))
     report.rule("R05.8", "a parenthesised argument is a LogicalType expression: accepted only for LogicalType parameters and only if it is a test expression; a parenthesised literal or ValueType call is refused for every parameter type")
     check_parenthesised_arguments(model, report, "R05.8")
     check_range(model, report, "R05.6")
